@@ -187,8 +187,9 @@ type c15world struct {
 }
 
 func c15new(cas c15case) *c15world {
-	resetGlobals()
-	slog.AddFlags(slog.LnoInterrupt)
+	caseSeq++
+	resetAlt(caseSeq)
+	setFlagsVia(slog.LstdFlags|slog.LnoInterrupt, caseSeq/2)
 	w := &c15world{rec: &recorder{}}
 	wr := &plainW{"under", w.rec}
 	w.l = slog.New("under").SetWriter(wr).SetErrorWriter(wr)
